@@ -322,7 +322,13 @@ func (g *G) genHelper(i int) {
 		return
 	}
 	g.newFn(sig, sig.Pure)
-	body := g.stmts(paramScope(sig), uReturn, 1+g.pick("hstmts", g.cfg.MaxStmts), g.cfg.MaxDepth)
+	hsc := paramScope(sig)
+	var pro []string
+	if g.chance("hprologue", 60) {
+		pro = g.prologue(hsc)
+	}
+	rest := g.stmts(hsc, uReturn, 1+g.pick("hstmts", g.cfg.MaxStmts), g.cfg.MaxDepth)
+	body := append(append(pro, unusedFixups(hsc)...), rest...)
 	g.finishFn(body, false)
 	g.helpers = append(g.helpers, sig)
 }
@@ -356,6 +362,58 @@ func (g *G) genRecursive(sig *FuncSig) {
 	g.helpers = append(g.helpers, sig)
 }
 
+// prologue declares a few seed variables so that later expressions have
+// non-constant material to work with (otherwise most conditions are constant
+// and most of the generated code is dead).
+func (g *G) prologue(sc *scope) []string {
+	var out []string
+	n := 2 + g.pick("pron", 4)
+	for i := 0; i < n; i++ {
+		name := g.freshName(sc, "pro")
+		switch g.pick("prokind", 12) {
+		case 0, 1, 2:
+			t := g.intTy("proint")
+			v := &Var{Name: name, T: t}
+			out = append(out, name+" := "+g.litOf(t, false))
+			g.declare(sc, v)
+		case 3, 4, 5:
+			t := g.intTy("provarint")
+			out = append(out, "var "+name+" "+t.Go()+" = "+g.litOf(t, true))
+			g.declare(sc, &Var{Name: name, T: t, Mutable: true})
+		case 6:
+			ln := []int{8, 12, 16}[g.pick("probuf", 3)]
+			out = append(out, fmt.Sprintf("%s := make([]byte, %d)", name, ln))
+			g.declare(sc, &Var{Name: name, T: SliceOf(TU8), MinLen: ln})
+		case 7:
+			t := SliceOf(g.intTy("prosl"))
+			ln := 1 + g.pick("prosllen", 4)
+			out = append(out, fmt.Sprintf("var %s %s = make(%s, %d)", name, t.Go(), t.Go(), ln))
+			g.declare(sc, &Var{Name: name, T: t, Mutable: true, MinLen: ln})
+		case 8:
+			t := MapOf(TU64, g.intTy("promap"))
+			out = append(out, fmt.Sprintf("%s := make(%s)", name, t.Go()))
+			g.declare(sc, &Var{Name: name, T: t, NonNil: true})
+		case 9, 10:
+			if len(g.prog.Structs) > 0 {
+				st := &Ty{K: KStruct, S: g.prog.Structs[g.pick("prost", len(g.prog.Structs))]}
+				if g.chance("proptr", 50) {
+					out = append(out, name+" := &"+g.structLit(sc, st, 1))
+					g.declare(sc, &Var{Name: name, T: PtrTo(st), NonNil: true})
+				} else {
+					out = append(out, "var "+name+" "+st.Go()+" = "+g.structLit(sc, st, 1))
+					g.declare(sc, &Var{Name: name, T: st, Mutable: true})
+				}
+				break
+			}
+			fallthrough
+		default:
+			out = append(out, "var "+name+" bool = "+g.litOf(TBool, true))
+			g.declare(sc, &Var{Name: name, T: TBool, Mutable: true})
+		}
+	}
+	return out
+}
+
 func (g *G) resultTy(label string) *Ty {
 	return g.anyTy(label, 1)
 }
@@ -367,7 +425,10 @@ func (g *G) genEntry(i int) {
 		sig.Results = append(sig.Results, g.resultTy("eresty"))
 	}
 	g.newFn(sig, false)
-	body := g.stmts(&scope{}, uReturn, 2+g.pick("estmts", g.cfg.MaxStmts), g.cfg.MaxDepth)
+	top := &scope{params: true}
+	pro := g.prologue(top)
+	rest := g.stmts(top, uReturn, 2+g.pick("estmts", g.cfg.MaxStmts), g.cfg.MaxDepth)
+	body := append(append(pro, unusedFixups(top)...), rest...)
 	g.finishFn(body, true)
 }
 
@@ -594,9 +655,8 @@ func (g *G) intExpr(sc *scope, t *Ty, depth int, typed bool) string {
 			return g.intExpr(sc, t, 0, typed)
 		}
 		if depth > 1 && g.chance("nestl", 40) {
-			l = "(" + g.intExpr(sc, t, depth-1, true) + ")"
-			// make sure the whole thing stays non-constant
-			l = "(" + g.nonConst(sc, t, 0) + " ^ " + l + ")"
+			// keep l (non-constant) in the expression so that the whole stays non-constant
+			l = "(" + l + " ^ (" + g.intExpr(sc, t, depth-1, true) + "))"
 		}
 		op := arithOps[g.pick("arith", len(arithOps))]
 		g.label("arith")
@@ -713,9 +773,19 @@ func balancedOuter(s string) bool {
 
 func (g *G) boolExpr(sc *scope, depth int) string {
 	if depth <= 0 {
-		if g.chance("boolleafvar", 60) {
+		if g.chance("boolleafvar", 50) {
 			if s := g.nonConst(sc, TBool, 0); s != "" {
 				return s
+			}
+		}
+		if g.chance("boolleafcmp", 85) {
+			t := g.intTy("leafcmpty")
+			if l := g.nonConst(sc, t, 0); l != "" {
+				op := []string{"==", "!=", "<", ">", "<=", ">="}[g.pick("leafcmpop", 6)]
+				return fmt.Sprintf("%s %s %s", paren(l), op, g.litOf(t, true))
+			}
+			if l := g.nonConst(sc, TU64, 0); l != "" {
+				return fmt.Sprintf("%s %s %s", paren(l), []string{"<", ">=", "!="}[g.pick("leafcmpop2", 3)], g.litOf(TU64, true))
 			}
 		}
 		return g.litOf(TBool, true)
@@ -753,10 +823,7 @@ func (g *G) boolExpr(sc *scope, depth int) string {
 			return use(ps[g.pick("nilp", len(ps))]) + []string{" == nil", " != nil"}[g.pick("nilop", 2)]
 		}
 	}
-	if s := g.nonConst(sc, TBool, 0); s != "" {
-		return s
-	}
-	return g.litOf(TBool, true)
+	return g.boolExpr(sc, 0)
 }
 
 func (g *G) strExpr(sc *scope, depth int) string {
